@@ -1059,11 +1059,16 @@ public:
         bool IsConst = T.isConstQualified();
         if (!IsConst) { Mut.push_back(V->getNameAsString()); continue; }
         if (T->isIntegralOrEnumerationType()) {
-          if (const APValue *AV = V->evaluateValue())
-            if (AV->isInt()) {
-              llvm::APSInt I = AV->getInt();
+          // C++17: static constexpr members are implicitly inline and their initialisers are instantiated lazily;
+          // evaluateValue() must not be called on a declaration whose initialiser has not been instantiated
+          const Expr *Init = V->getAnyInitializer();
+          if (Init && !Init->isValueDependent() && !Init->isTypeDependent()) {
+            Expr::EvalResult R;
+            if (Init->EvaluateAsInt(R, Ctx)) {
+              llvm::APSInt I = R.Val.getInt();
               Consts[V->getNameAsString()] = I.isSigned() ? (int64_t)I.getSExtValue() : (int64_t)I.getZExtValue();
             }
+          }
         }
       }
     }
